@@ -102,6 +102,10 @@ type IncDec struct {
 	Prefix bool
 }
 type Echo struct{ Args []Expr }
+
+// Collect appends a value to the main program's list: $acc[] = e;  (Program.Acc makes the printer
+// declare `$acc = [];` before the main statements and print `echo implode(",", $acc), "#";` after them).
+type Collect struct{ E Expr }
 type If struct {
 	Cond  Expr
 	Then  []Stmt
@@ -207,5 +211,6 @@ type Program struct {
 	Classes []ClassDecl
 	Funcs   []*Func
 	Main    []Stmt
+	Acc     bool // main collects values in $acc (see Collect)
 	Feats   map[string]int
 }
